@@ -5,9 +5,29 @@
    * V  C03_check_tree_sound / C03_check_connected_sound: the two validators evaluated inside Coq by
         ./check on every real output of route() are sound for the property's sentence (ValidTree) and for
         "all working chips reach each other over working links" (Connected).
-   The universal theorems about the model of ner_net follow below as they are closed. *)
+   * U  C03_ner_net_tree: on every fault-free w x h torus or mesh (w, h >= 1, so 1 x N and 2 x N too), for
+        every source, destination list (duplicates allowed), radius (any integer) and every stream of
+        random draws, the model of ner_net returns a tree rooted at the source in which no chip occurs twice,
+        every hop follows a working link to the adjacent chip in that direction and every destination is a
+        node.  Rests on the theorems of C11 (the vector has as many hops as the graph distance; the
+        longest-dimension-first walk has that length) and on the cut-at-the-LAST-intersection lemma.
+   * U  C03_route_valid_partial: route() for one net, on ANY machine with ANY faults, returns a tree that
+        satisfies the property's whole sentence (ValidTree: root, no chip twice, live adjacent hops, exactly
+        the sinks' leaves) whenever the tree of ner_net touches no dead link, i.e. whenever route() does not
+        call avoid_dead_links.  PARTIAL: for nets whose tree does touch a dead chip or link the statement is
+        not proved for all inputs -- missing are (i) A*'s completeness on every connected fault map and (ii)
+        that the repairs compose in the (hash) iteration order of the set broken_links when a later detour
+        crosses an earlier one; there the property is certified per output by C03_check_tree_sound (V),
+        evaluated inside Coq on every real route() result, and the connectivity clause by
+        C03_check_connected_sound.
+   * U  C03_copy_disconnect_inv: the first half of avoid_dead_links, for every machine and tree.
+   * R  C03_repair_duplicate_child_orig_refuted: the repair step of the code as found (before c75fe85)
+        attached a chip twice; witness replayed on the real code.
+   The model (Model/Route.v) is compared with rig on every run: exact tree equality for ner_net and for the
+   final tree of route(), with the random module scripted. *)
 From Coq Require Import ZArith List Bool.
-Require Import Rig.Model.Base Rig.Model.Route Rig.Spec.Route Rig.Proofs.Route.
+Require Import Rig.Model.Base Rig.Model.Route Rig.Spec.Route Rig.Proofs.Route Rig.Proofs.RouteMain
+        Rig.Proofs.RouteFull Rig.Proofs.RouteCopy.
 Import ListNotations.
 Open Scope Z_scope.
 
@@ -22,3 +42,109 @@ Proof. exact check_tree_sound. Qed.
 Theorem C03_check_connected_sound :
   forall m, check_connected m = true -> Connected m.
 Proof. exact check_connected_sound. Qed.
+
+(* U: ner_net on a fault-free machine.  [wrap] is the wrap_around flag route() passes: with wrap = true the
+   machine has no dead link at all (a torus), with wrap = false its only dead links are wrap-around links
+   (a mesh: hops never leave the rectangle).  The call never fails (no exception, no exhausted fuel). *)
+Theorem C03_ner_net_tree :
+  forall m wrap src dests radius s,
+    1 <= rm_w m -> 1 <= rm_h m -> fault_free m wrap ->
+    in_range (rm_w m) (rm_h m) src -> Forall (in_range (rm_w m) (rm_h m)) dests -> stream_ok s ->
+    exists t route,
+      ner_net src dests (rm_w m) (rm_h m) wrap radius s = Ok (t, route)
+      /\ root_chip t = Some src
+      /\ NoDup (chips t)
+      /\ (forall p r c, In (p, r, c) (tree_hops t) -> exists l, r = Some l /\ hop_ok m p l c)
+      /\ (forall d, In d dests -> In d (chips t))
+      /\ (forall x, In x (chips t) <-> In x route).
+Proof. exact ner_net_tree. Qed.
+
+(* U-partial (see the header): the full statement is
+
+     forall m (any dead chips / links) net placements allocations constraints radius stream,
+       placements on working chips ->
+       (Connected m -> exists t, route_net ... = Ok t /\ ValidTree m src (sink_reqs ...) t) /\
+       (route_net ... = Failed 0 -> ~ Connected m) /\ route_net ... <> OtherError.
+
+   Proved: the branch in which route() does not repair (hypothesis on has_dead_links below), for every
+   machine.  [dests] is the iteration order of set(placements[sink]); [order] that of broken_links. *)
+Theorem C03_route_valid_partial :
+  forall m source sinks dests pl cons allocs radius s order src,
+    1 <= rm_w m -> 1 <= rm_h m ->
+    zassoc source pl = Some src -> in_range (rm_w m) (rm_h m) src ->
+    Forall (in_range (rm_w m) (rm_h m)) dests -> stream_ok s ->
+    (forall v, In v sinks -> exists c, zassoc v pl = Some c /\ In c dests) ->
+    (forall v a b, In v sinks -> zassoc v allocs = Some (a, b) -> 0 <= a /\ b <= 18) ->
+    (forall tr, ner_net src dests (rm_w m) (rm_h m) (has_wrap m) radius s = Ok tr ->
+                has_dead_links m (fst tr) = false) ->
+    exists t, route_net m source sinks dests pl cons allocs radius s order = Ok t /\
+              ValidTree m src (sink_reqs sinks pl cons allocs) t.
+Proof. exact route_valid_no_repair. Qed.
+
+(* U: copy_and_disconnect_tree, for every machine and every tree without a repeated chip: the loop terminates
+   within the model's fuel; the copy holds exactly the working chips of the tree, each once; every edge it
+   kept is a working link between adjacent chips; each broken pair names a node of the copy and the root of a
+   disconnected tree, and the copy consists of the root's tree plus one tree per broken pair (so re-attaching
+   every broken child reconnects everything). *)
+Theorem C03_copy_disconnect_inv :
+  forall m root,
+    NoDup (chips root) ->
+    copy_and_disconnect root m <> OutOfFuel /\
+    forall f br, copy_and_disconnect root m = Ok (f, br) ->
+      (forall x, In x (forest_chips f) <-> In x (chips root) /\ working_chip m x)
+      /\ NoDup (forest_chips f)
+      /\ (forall t p r c, In t f -> In (p, r, c) (tree_hops t) -> exists l, r = Some l /\ hop_ok m p l c)
+      /\ (forall p c, In (p, c) br ->
+                      In p (forest_chips f) /\ exists t, In t (tl f) /\ root_chip t = Some c)
+      /\ length f = S (length br).
+Proof. exact copy_disconnect_inv. Qed.
+
+(* R: the repair of the code as found (model avoid_dead_links_orig) on a connected 3 x 4 mesh with five
+   further dead links: the tree of ner_net is repaired into a tree that lists chip (1, 0) twice; the
+   repaired code returns a tree the validator accepts. *)
+Theorem C03_repair_duplicate_child_orig_refuted :
+  exists t route f,
+    ner_net (0, 3) [(0, 3); (2, 0)] 3 4 (has_wrap ex_dup_machine) 20 [0] = Ok (t, route)
+    /\ check_connected ex_dup_machine = true
+    /\ avoid_dead_links_orig t ex_dup_machine (has_wrap ex_dup_machine) ex_dup_order = Ok f
+    /\ (2 <= occurrences (1, 0)%Z (forest_chips f))%nat
+    /\ exists f', avoid_dead_links t ex_dup_machine (has_wrap ex_dup_machine) ex_dup_order = Ok f'
+                  /\ match f' with
+                     | t' :: _ => check_tree ex_dup_machine (0, 3) [] t' = true
+                     | [] => False
+                     end.
+Proof. exact repair_duplicate_child_orig_refuted. Qed.
+
+(* ---- the hypotheses are satisfiable, the conclusions not vacuous *)
+Example C03_ner_net_instance :
+  fault_free (perfect 3 2) true /\ stream_ok [0; 5; 7] /\
+  ner_net (0, 0) [(2, 1); (0, 0); (2, 1)] 3 2 true 20 [0; 5; 7]
+  = Ok (RNode (0, 0) [(Some 4, RNode (2, 1) [])], [(0, 0); (2, 1)]).
+Proof. exact ex_ner_net. Qed.
+
+(* C03_route_valid_partial applies to machines with faults: a dead chip and a dead link off the tree *)
+Example C03_route_partial_instance :
+  (forall tr, ner_net (0, 0) [(1, 1)] 3 3 (has_wrap ex_faulty) 20 [] = Ok tr ->
+              has_dead_links ex_faulty (fst tr) = false)
+  /\ route_net ex_faulty 0 [1; 1] [(1, 1)] [(0, (0, 0)); (1, (1, 1))] [] [(1, (1, 3))] 20 [] None
+     = Ok (RNode (0, 0) [(Some 1, RNode (1, 1) [(Some 7, RLeaf 1); (Some 8, RLeaf 1);
+                                                (Some 7, RLeaf 1); (Some 8, RLeaf 1)])])
+  /\ sink_reqs [1; 1] [(0, (0, 0)); (1, (1, 1))] [] [(1, (1, 3))]
+     = [(1, (1, 1), [Some 7; Some 8]); (1, (1, 1), [Some 7; Some 8])].
+Proof. exact ex_route_no_repair. Qed.
+
+Example C03_mesh_instance : fault_free ex_mesh false.
+Proof. exact ex_mesh_fault_free. Qed.
+
+(* the validators accept a valid tree / a connected machine and reject a tree with a repeated chip / a
+   machine with a chip nothing can leave *)
+Example C03_validators_instance :
+  check_tree (perfect 3 2) (0, 0) [(7, (2, 1), [Some 6; Some 7])]
+             (RNode (0, 0) [(Some 4, RNode (2, 1) [(Some 6, RLeaf 7); (Some 7, RLeaf 7)])]) = true
+  /\ check_tree (perfect 3 2) (0, 0) [(7, (2, 1), [Some 6])]
+                (RNode (0, 0) [(Some 4, RNode (2, 1) [(Some 6, RLeaf 7)]);
+                               (Some 4, RNode (2, 1) [(Some 6, RLeaf 7)])]) = false
+  /\ check_connected ex_mesh = true
+  /\ check_connected {| rm_w := 2; rm_h := 1; rm_dead_chips := [];
+                        rm_dead_links := [((0, 0), 0); ((0, 0), 1); ((0, 0), 3); ((0, 0), 4)] |} = false.
+Proof. exact ex_check_tree. Qed.
